@@ -325,6 +325,7 @@ HOST_TEXTS = ['12', '0x10', '-0x10', '-3', '7/2', '(9-2)/2+5', '2*(3+4)', '(0-7)
               '1 << 30', '32768 * 65535', '-0x80000000', '-0xFFFFFFFF', '-0x7FFFFFFF', '0x80000000', '0xFFFFFFFF', '-2147483648', '-0x8000000000000000',
               '0x7FFFFFFFFFFFFFFF', '-(5)', '- 7', '+7', '- 0x80000000', '-(0x80000000)', '- 9223372036854775808', '-( 9223372036854775808 )', '-  0xFFFFFFFF',
               '(-0x80000000)', '( - 0x80000000 )', '-((0x80000000))', '(-0x8000000000000000)', '(-9223372036854775808)', '(-5)', '((-(7)))',
+              '-(0xC0000000)', '( -0xFFFFFFFF )', '- 0x8000000A', '-((0xdeadBEEF))', '-(0XC0000000)', '- 0xabcdef12',
               # grouping: calc's shift binds tightest, the hosts' loosest (D27b); `|` chains group differently and mean the same
               '1 << 2 + 1', '1 + 2 << 3', '16 >> 1 + 1', '2 * 3 << 1', '8 - 1 << 2', '(1 << 2) + 1', '1 << (2 + 1)', '1 | 2 | 4', '(1 | 2) | 4', '1 | 2 + 4',
               '7 - 2 - 1', '24 / 2 / 3', '2 * (3 + 4) - 5', '-(3) + 10', '100 / 7', '(0 - 7) / 2', '7 / (0 - 2)', '(0 - 8) / 2']
@@ -333,7 +334,11 @@ HOST_TEXTS = ['12', '0x10', '-0x10', '-3', '7/2', '(9-2)/2+5', '2*(3+4)', '(0-7)
 HOST_TEXTS_BIG = ['(1) << (31)', '2147483647 + 1', '65536 * 65536', '1 << 30', '32768 * 65535', '-0x80000000', '-0xFFFFFFFF', '-0x7FFFFFFF', '0x80000000', '0xFFFFFFFF',
                   '-2147483648', '-0x8000000000000000', '0x7FFFFFFFFFFFFFFF', '-(5)', '- 7', '- 0x80000000', '-(0x80000000)', '- 9223372036854775808',
                   '-( 9223372036854775808 )', '-  0xFFFFFFFF', '(-0x80000000)', '( - 0x80000000 )', '-((0x80000000))', '(-0x8000000000000000)',
-                  '(-9223372036854775808)', '(-5)', '((-(7)))']
+                  '(-9223372036854775808)', '(-5)', '((-(7)))', '-(0xC0000000)', '( -0xFFFFFFFF )', '- 0x8000000A', '-((0xdeadBEEF))', '-(0XC0000000)',
+                  '- 0xabcdef12']
+
+
+LONE_LITERAL = re.compile(r'[\s()]*[-+]?[\s()]*(0[xX][0-9a-fA-F]+|[0-9]+)[\s()]*\Z')
 
 
 def classify_host_text(case, detail):
@@ -344,6 +349,8 @@ def classify_host_text(case, detail):
     text = case.get('expression', '')
     if re.search(r'(?<![\w.])0\d', text):
         return 'D63'
+    if LONE_LITERAL.match(text):
+        return None       # a lone literal, signed and parenthesised or not, is not pasted: `_to_literal` renders the number (D175, D187, D193)
     m = re.search(r'\(([^()]*)\)\s*/', text)
     if m and '-' in m.group(1):
         return 'D63'
@@ -425,7 +432,7 @@ def run_isar_host_text(chk, workdir):
             predicted['calc:constant'] = m['calc']
         if isinstance(m.get('py'), int):
             predicted['python:constant'] = m['py']
-        if isinstance(m.get('cpp'), int) and not re.match(r'\s*-?\s*\(?\s*(0[xX][0-9a-fA-F]+|[0-9]+)\s*\)?\s*\Z', text):
+        if isinstance(m.get('cpp'), int) and not LONE_LITERAL.match(text):
             # (a lone literal is not pasted: the generators render it with a suffix / in decimal)
             predicted['c++:constant'] = predicted['c++ raw:constant'] = m['cpp']
         wrong = dict((k, [seen.get(k), v]) for k, v in predicted.items() if k in seen and seen[k] != v and not re.search(r'(?<![\w.])0\d', text))
